@@ -2,6 +2,7 @@
 """Run every quick check against a behaviour-preserving change (false-alarm test).
 
 usage: eval_benign.py <src_dir_with patch.diff meta.json> <id> [CHECK,CHECK...]
+       (EVAL_BENIGN_MERGE=1 with a check list: merge into the recorded outcome instead of replacing it)
  1. in a scratch worktree of /repo: the patch applies and the baseline tests still pass (65)
  2. every quick check runs against that worktree (MSMART_REPO); /repo itself is never modified
 Expected: exit 0 everywhere.  Exit 1 = a false alarm of the machinery (or the change is not benign after all -
@@ -60,6 +61,9 @@ def main():
         sh(f"git -C /repo worktree remove --force {wt}")
         shutil.rmtree(wt, ignore_errors=True)
     meta["confirmed_by_us"] = conf
+    if len(sys.argv) > 3 and os.environ.get("EVAL_BENIGN_MERGE") == "1":
+        # re-run of a subset: keep the recorded outcome of the other checks
+        results = dict(meta.get("checks_run", {}), **results)
     meta["checks_run"] = results
     meta["alarms"] = [c for c, v in results.items() if v["exit"] == 1]
     meta["harness_errors"] = [c for c, v in results.items() if v["exit"] not in (0, 1)]
